@@ -11,6 +11,7 @@ func TestMain(m *testing.M) { harn.Main(m) }
 func init() {
 	harn.Register("C06_Script", RunC06)
 	harn.Register("C07_Script", RunC07)
+	harn.Register("C07_Wrap", RunWrap)
 	harn.Register("C11_Shutdown", RunShut)
 }
 
@@ -19,4 +20,5 @@ func TestRegress(t *testing.T) { harn.Regress(t) }
 
 func TestC06_Script(t *testing.T)   { harn.Check(t, "C06_Script", GenC06, RunC06) }
 func TestC07_Script(t *testing.T)   { harn.Check(t, "C07_Script", GenC07, RunC07) }
+func TestC07_Wrap(t *testing.T)     { harn.Check(t, "C07_Wrap", GenWrap, RunWrap) }
 func TestC11_Shutdown(t *testing.T) { harn.Check(t, "C11_Shutdown", GenShut, RunShut) }
